@@ -913,6 +913,7 @@ func (s *ObjectStorage) findObjectInPackfile(h plumbing.Hash) (plumbing.Hash, id
 	// MRU: probe the last successfully-hit pack first. The hint is
 	// encoded as packs index + 1; 0 means no hint. A stale entry
 	// costs one MayContain + FindOffset but never misroutes.
+	simhook.Yield("findObjectInPackfile.hint-load")
 	hint := int(s.lastHitPackIdx.Load()) - 1
 	if hint >= 0 && hint < len(packs) {
 		pe := packs[hint]
@@ -930,6 +931,7 @@ func (s *ObjectStorage) findObjectInPackfile(h plumbing.Hash) (plumbing.Hash, id
 	}
 
 	for i, pe := range packs {
+		simhook.Yield("findObjectInPackfile.loop")
 		if i == hint {
 			// Skip the MRU pack — we already tried it above.
 			continue
@@ -944,6 +946,7 @@ func (s *ObjectStorage) findObjectInPackfile(h plumbing.Hash) (plumbing.Hash, id
 			// pattern (caught by the MRU probe above) and avoids
 			// any allocation — the encoded value is a small int.
 			next := int32(i + 1)
+			simhook.Yield("findObjectInPackfile.hint-store")
 			if s.lastHitPackIdx.Load() != next {
 				s.lastHitPackIdx.Store(next)
 			}
